@@ -336,7 +336,7 @@ fn check_wire_forward(rep: &mut Report, ctx: &mut Ctx, t: u128) -> Result<(), Pa
         rep.inconclusive("master emitted no Follow_Up");
         return Ok(());
     };
-    let m = Msg::decode(&data).map_err(|e| PanicInfo { message: format!("refcodec cannot decode Follow_Up: {e}"), location: String::new(), nested_lock: false })?;
+    let m = Msg::decode(&data).map_err(|e| PanicInfo { message: format!("refcodec cannot decode Follow_Up: {e}"), location: String::new(), nested_lock: false, repo_frame: None })?;
     if let Body::FollowUp { precise_origin } = m.body {
         if m.hdr.correction < 0 {
             viol(rep, "wire-forward", "negative-correction", format!("t={t}"), json!({"t": t.to_string()}));
